@@ -252,6 +252,15 @@ pub fn judge(case: &Case, acc: &mut Acc) {
                     viol!(acc, P, &format!("wire-bytes-in-place/{}", k.name()), case, "write_into a buffer that held other bytes does not give type|length|value|zero padding (or touches bytes beyond)", fmt_bytes(&want_bytes), format!("{r2:?} {}", fmt_bytes(&dirty)));
                 }
             }
+            // the header-only encoder: type code and value length into four bytes, whatever follows
+            for size in [4usize, 5, 8, want_bytes.len() + 3] {
+                let mut hd = vec![0xA5u8; size];
+                let r3 = w.write_header(&mut hd);
+                if !matches!(r3, Ok(4)) || hd[..4] != want_bytes[..4] || hd[4..].iter().any(|b| *b != 0xA5) {
+                    viol!(acc, P, &format!("wire-header/{}", k.name()), case, format!("write_header into {size} bytes does not give the type code and the value length (or touches bytes beyond the four)"), fmt_bytes(&want_bytes[..4]), format!("{r3:?} {}", fmt_bytes(&hd)));
+                    break;
+                }
+            }
             want_bytes.clear();
             if real::typed_fields(&typed, tid) != pv {
                 viol!(acc, P, &format!("getter/{}", k.name()), case, "getters of a constructed value do not return what was put in", format!("{pv:?}"), format!("{:?}", real::typed_fields(&typed, tid)));
